@@ -182,6 +182,10 @@ func fmtGen(r *rand.Rand, lane string) *fmtCase {
 				depth--
 			case k == 12:
 				add("##!=>" + core.Pick(r, "", " ", "  "))
+			case k == 13 && core.Chance(r, 1, 3):
+				// names that differ in trailing blanks only (the name runs to the end of the line)
+				add("##!=<" + sp() + core.Pick(r, "st1 ", "st1", "st1  "))
+				add("##!=>" + sp() + core.Pick(r, "st1 ", "st1", "st1  "))
 			case k == 13:
 				add("##!=<" + sp() + "st1")
 				add("##!=>" + sp() + "st1")
